@@ -76,6 +76,7 @@ type UtxoVM struct {
 	OfflineTxChan     chan []*pb.Transaction   // 未确认tx的通知chan
 	PrevFoundKeyCache *cache.LRUCache          // 上一次找到的可用utxo key，用于加速GenerateTx
 	utxoTotal         *big.Int                 // 总资产
+	utxoTotalTmp      *big.Int                 // 正在构造的batch里累计的总资产, batch落盘后才生效
 	cryptoClient      crypto_base.CryptoClient // 加密实例
 	ModifyBlockAddr   string                   // 可修改区块链的监管地址
 	BalanceCache      *cache.LRUCache          //余额cache,加速GetBalance查询
@@ -295,25 +296,28 @@ func MakeUtxo(sctx *context.StateCtx, metaHandle *meta.Meta, cachesize, tmplockS
 }
 
 func (uv *UtxoVM) UpdateUtxoTotal(delta *big.Int, batch kvdb.Batch, inc bool) {
-	if inc {
-		uv.utxoTotal = uv.utxoTotal.Add(uv.utxoTotal, delta)
-	} else {
-		uv.utxoTotal = uv.utxoTotal.Sub(uv.utxoTotal, delta)
+	if uv.utxoTotalTmp == nil {
+		uv.utxoTotalTmp = big.NewInt(0).Set(uv.utxoTotal)
 	}
-	batch.Put(append([]byte(pb.MetaTablePrefix), []byte(UTXOTotalKey)...), uv.utxoTotal.Bytes())
+	if inc {
+		uv.utxoTotalTmp = uv.utxoTotalTmp.Add(uv.utxoTotalTmp, delta)
+	} else {
+		uv.utxoTotalTmp = uv.utxoTotalTmp.Sub(uv.utxoTotalTmp, delta)
+	}
+	batch.Put(append([]byte(pb.MetaTablePrefix), []byte(UTXOTotalKey)...), uv.utxoTotalTmp.Bytes())
 }
 
-// ReloadUtxoTotal 从meta表重新加载总资产, 用于区块执行失败后丢弃内存中已经累加但没有落盘的值
-func (uv *UtxoVM) ReloadUtxoTotal() {
-	total := big.NewInt(0)
-	utxoTotalBytes, findTotalErr := uv.metaHandle.MetaTable.Get([]byte(UTXOTotalKey))
-	if findTotalErr == nil {
-		total.SetBytes(utxoTotalBytes)
-	} else if def.NormalizedKVError(findTotalErr) != def.ErrKVNotFound {
-		uv.log.Warn("reload utxo total failed", "err", findTotalErr)
-		return
+// CommitUtxoTotal batch落盘成功后调用, batch里累计的总资产正式生效
+func (uv *UtxoVM) CommitUtxoTotal() {
+	if uv.utxoTotalTmp != nil {
+		uv.utxoTotal = uv.utxoTotalTmp
+		uv.utxoTotalTmp = nil
 	}
-	uv.utxoTotal = total
+}
+
+// RollbackUtxoTotal batch没有落盘(区块执行失败)时调用, 丢弃batch里累计的总资产
+func (uv *UtxoVM) RollbackUtxoTotal() {
+	uv.utxoTotalTmp = nil
 }
 
 // parseUtxoKeys extract (txid, offset) from key of utxo item
